@@ -1,5 +1,40 @@
 #![doc = include_str!("../README.md")]
 
+// Verification hooks (see `src/verif.rs`); all of these expand to nothing unless the crate is
+// built with `--cfg circ_verif`.
+#[cfg(circ_verif)]
+macro_rules! vp {
+    ($s:ident) => {
+        $crate::verif::yield_point($crate::verif::site::$s);
+    };
+}
+#[cfg(not(circ_verif))]
+macro_rules! vp {
+    ($s:ident) => {};
+}
+#[cfg(circ_verif)]
+macro_rules! vp_after {
+    ($s:ident) => {
+        let _vp_after = $crate::verif::YieldAfter($crate::verif::site::$s);
+    };
+}
+#[cfg(not(circ_verif))]
+macro_rules! vp_after {
+    ($s:ident) => {};
+}
+#[cfg(circ_verif)]
+macro_rules! vev {
+    ($k:ident, $addr:expr, $aux:expr) => {
+        $crate::verif::event($crate::verif::ev::$k, $addr as usize, $aux as usize);
+    };
+}
+#[cfg(not(circ_verif))]
+macro_rules! vev {
+    ($k:ident, $addr:expr, $aux:expr) => {};
+}
+#[cfg(circ_verif)]
+pub mod verif;
+
 pub(crate) mod ebr_impl;
 mod strong;
 mod utils;
